@@ -55,6 +55,12 @@ var rewriteShapes = []string{
 	// \B after a loop of non-word characters at the end of the pattern: holds between two loop characters, may fail
 	// after the last one (known finding c05-nonboundary-end until fixed); sound when something disjoint follows
 	`\W+\B`, `-+\B`, `\D+\B`, `\W+\B\d*`, `[-.]+\B`, `\W+\B\w`, `\w+\B`, `\w+\b\s*`, `(?>\W+)\B`, `\s+\B`,
+	// regression shapes of fixed defects: right-to-left loops inside lookbehinds reached by ending-backtracking removal
+	// (cad7f1b), an overlapping nullable set loop stepped over by canBeMadeAtomic (af08c9d), atomic child loops under a
+	// quantifier (571b434; same tree with every gate, kept for the reference-semantics half of the leg)
+	`(?<=(?:a*ba){2})`, `(?<=(?:a*$){2})`, `(?<=(?:a*\z){2})c?`, `(?<=(?:[ab]*ba){2,3})`, `(?<!(?:a*ba){2})a`, `(?<=(?:a+b){2})`,
+	`[ab]+(?=[ab]*c)[ab]c`, `\w+(?=\w*\.)[ab]\.`, `[ab]+(?=[ab]*?c)[ab]c`, `[ab]*(?:[ab]+\w{0,2}?(?=[ab]*?\S*-)|\z[a-]){2}`, `[ab]*[cd]*e`, `[ab]+[bc]?c`,
+	`(?>a+)?ab`, `(?>a?){2,}ab`, `(?>a*)?aab`, `(?>a{1,2}){2}`, `(?>a*)+b`,
 	`(?<a-b>x|(?<b>x))`, `(?=(?<a-b>x|(?<b>x)))x`, `a(?<a-b>(?<b>x)*?|x)`, `(?>(?<a-b>x*?|(?<b>x)))`, `(?<b>a)?(?<a-b>x|(?<b>x))c?`, `(?<a-b>(?:x|(?<b>x))+?)`, `(?<b>a)(?<-b>x*)x`,
 }
 
